@@ -83,6 +83,23 @@ def truncate (maxLen : Nat) (s : Str) : Str :=
 
 def formatValue (maxLen : Nat) (v : Val) : Str := truncate maxLen (reprOr v)
 
+/-- Python `s.split(c)` for a one-character separator -/
+def splitOnChar (c : Char) : Str → List Str
+  | [] => [[]]
+  | x :: xs =>
+    match splitOnChar c xs with
+    | [] => [[]]
+    | l :: ls => if x = c then [] :: l :: ls else (x :: l) :: ls
+
+/-- the lines one displayed value occupies in the report (`_format_relevant_values`:
+`value_lines = value.split("\n")`, one report line each) -/
+def displayLines (maxLen : Nat) (v : Val) : List Str := splitOnChar Gen.valueLineSep (formatValue maxLen v)
+
+/-- the shape refuted by `C13.per_line_truncation_unbounded` (seeded change C13-d): the limit applied
+to each line of the repr separately -/
+def truncatePerLine (maxLen : Nat) (s : Str) : Str :=
+  [Gen.valueLineSep].intercalate ((splitOnChar Gen.valueLineSep s).map (truncate maxLen))
+
 /-! ### `_extract_frames` -/
 
 structure Shown where
